@@ -39,11 +39,21 @@ var poolOpts = bridge.GenOpts{
 
 // ---------------------------------------------------------------- C04
 
+// c04Opts biases towards the paths where a transfer changes place more than
+// once: batch timeouts, out-of-order executions, cancels, shared tx hashes.
+func c04Opts() bridge.GenOpts {
+	o := poolOpts
+	o.Weights = map[string]int{"xtick": 14, "send2": 10, "cancel": 10, "burst": 1, "reqbatch": 10}
+	o.EthTimeout = []uint64{60000, 60000, 150000}
+	o.TimeoutMs = []uint64{20000, 60000, 86400000 - 1}
+	return o
+}
+
 func TestC04(t *testing.T) {
 	(&pbt.Check{
 		ID:   "C04",
 		Rule: "whole-bridge histories (send, cancel, request-batch, auto-batching, external deposits/transfers, batch execution in any order, external clock, expiry) on up to 3 chains x 3 denoms; non-trivial = a transfer went batch -> pool -> (batch again | refund), or one token had >100 unbatched transfers; distinct = distinct case JSON",
-		Gen:  bridge.GenCase(poolOpts),
+		Gen:  bridge.GenCase(c04Opts()),
 		New:  func() interface{} { return &bridge.Case{} },
 		Run: func(ci interface{}, rec *pbt.Rec) *pbt.Failure {
 			c := ci.(*bridge.Case)
